@@ -7,7 +7,7 @@ import random
 from multiprocessing import Pool
 
 from . import toy
-from .core import NCPU, limited
+from .core import Guarded, limited, NCPU, CallTimeout
 
 # ----------------------------------------------------------------------------- catalogue
 # (name, p, d, raw modulus_coeffs as handed to py_ecc, exhaustive-binary?, tier)
@@ -105,7 +105,9 @@ def exponents(f, rng, tier):
 # ----------------------------------------------------------------------------- row production
 def _safe(fn):
     try:
-        return limited(fn, 120)
+        return limited(fn, 60)
+    except CallTimeout:
+        raise       # non-termination: abort the job, reported by main
     except RecursionError:
         return "EXC:RecursionError"
     except Exception as e:  # noqa: BLE001 -- any exception is recorded as the observed value
@@ -261,7 +263,7 @@ def build_tables(tier: str, seed: int, families=("ref", "opt"), log=lambda *a: N
             work.append((ji, (fi, f, fam, op, operands[c:c + step])))
     log(f"field tables: {len(jobs)} jobs, {sum(len(j[0][4]) for j in jobs)} rows to produce")
     with Pool(NCPU) as pool:
-        parts = pool.map(_job_wrap, work, chunksize=1)
+        parts = pool.map(Guarded(_job_wrap), work, chunksize=1)
     by_job = {}
     for (ji, _), rows in zip(work, parts):
         by_job.setdefault(ji, []).extend(rows)
